@@ -202,3 +202,29 @@ Proof.
   destruct (c12_spec_named_loop args pt kw (repeat false (length kw)) am ow) as [[t st] d].
   destruct st; reflexivity.
 Qed.
+
+(* ------------------------------------------------------------------ readOptions for every argument vector *)
+Lemma c12_read_options_spec : forall args pt, c12_read_options args pt = c12_spec_read_options args pt.
+Proof.
+  assert (G : forall n args, length args <= n -> forall pt, c12_read_options args pt = c12_spec_read_options args pt).
+  { induction n as [|n IH]; intros args Hn pt.
+    - destruct args; [reflexivity|cbn in Hn; lia].
+    - destruct args as [|a rest]; [reflexivity|]. cbn in Hn.
+      unfold c12_spec_read_options. cbn [c12_read_options c12_options_scan].
+      destruct a as [|c [|c2 a']].
+      + cbn [c12_is_option]. specialize (IH rest ltac:(lia) pt). unfold c12_spec_read_options in IH. exact IH.
+      + cbn [c12_is_option].
+        assert (E : c12_read_options rest pt = c12_spec_read_options rest pt) by (apply IH; lia).
+        unfold c12_spec_read_options in E.
+        destruct c as [[] [] [] [] [] [] [] []]; exact E.
+      + cbn [c12_is_option].
+        destruct (Ascii.eqb_spec c "-"%char) as [->|Hc].
+        * destruct rest as [|v rest']; [reflexivity|]. cbn [tl c12_set_all].
+          destruct (c12_options_scan rest') as [l d] eqn:Escan. cbn [c12_set_all].
+          destruct (c12_set pt (c12_path (c2 :: a')) v) as [pt' ok]. destruct ok; [|reflexivity].
+          cbn in Hn. specialize (IH rest' ltac:(lia) pt'). unfold c12_spec_read_options in IH. rewrite Escan in IH. exact IH.
+        * assert (E : c12_read_options rest pt = c12_spec_read_options rest pt) by (apply IH; lia).
+          unfold c12_spec_read_options in E.
+          destruct c as [[] [] [] [] [] [] [] []]; try exact E; congruence. }
+  intros args pt. apply (G (length args)). lia.
+Qed.
